@@ -112,7 +112,12 @@ def docstring(
                                 return_token=getattr(RETURN_TOKENS, docstring_format)[0]
                             )
                         ),
-                        maybe_nl1="" if not params or params[-1] == "\n" else "\n",
+                        maybe_nl1=(
+                            ""
+                            if (not params and docstring_format == "rest")
+                            or params[-1:] == "\n"
+                            else "\n"
+                        ),
                         returns_doc=line_,
                     )
                 )
